@@ -104,6 +104,18 @@ class _Hung(Exception):
     pass
 
 
+class _Unprintable(Exception):
+    def __str__(self):
+        raise RuntimeError("str() of this exception fails")
+
+
+# what a failing user callback may raise: every ordinary exception class the handler might name,
+# and one whose text cannot be produced (the code logs the exception)
+_CB_EXCEPTIONS = [lambda: RuntimeError("callback failure (scripted)"), lambda: KeyError("k"), lambda: ValueError("%s %d {0}"),
+                  lambda: TypeError(), lambda: IndexError(3), lambda: AttributeError("x"), lambda: OSError(5, "io"),
+                  lambda: Exception(), lambda: AssertionError("a"), lambda: LookupError(), lambda: _Unprintable()]
+
+
 def _debug_logging():
     """Run the code as a host application with logging configured at DEBUG would: every
     `logging.debug(...)` / `isEnabledFor(DEBUG)` branch is live.  Records go to a NullHandler.
@@ -219,7 +231,7 @@ async def _one(case, token, obs):
         k = len(cbs)
         cbs.append([progress, total, message])
         if k in raises:
-            raise RuntimeError("callback failure (scripted)")
+            raise _CB_EXCEPTIONS[(case.get("cbExc", 0) + k) % len(_CB_EXCEPTIONS)]()
 
     def fire(ev):
         def f():
